@@ -755,6 +755,8 @@ func (f *fnTrans) ret(ins *ssa.Return) {
 	}
 	if f.c.HasMod {
 		f.frameObligations(ins, ord)
+	} else if len(f.c.Frames) > 0 {
+		f.partialFrameObligations(ins, ord)
 	}
 	f.protectCheck("post", fmt.Sprintf("ret%d", ord), f.curB, f.cur, f.here(), ins.Pos(), nil)
 	f.subtypeObligations(ins, ord, names)
@@ -844,6 +846,15 @@ func (f *fnTrans) frameOfMods(modifies []string, sig *types.Signature, env *Env)
 	fs := &frameSpec{whole: map[string]bool{}, locs: map[string][]Term{}}
 	for _, m := range modifies {
 		loc := strings.TrimSpace(m)
+		if strings.HasPrefix(loc, "!") {
+			// "!loc": the heap variable loc lives in is framed, but loc itself may not change either
+			for _, h := range f.w.modLocHeaps(strings.TrimPrefix(loc, "!"), sig) {
+				if _, ok := fs.locs[h]; !ok {
+					fs.locs[h] = nil
+				}
+			}
+			continue
+		}
 		guardS := ""
 		if i := strings.Index(loc, " if "); i > 0 {
 			guardS = strings.TrimSpace(loc[i+4:])
@@ -959,6 +970,42 @@ func (f *fnTrans) frameFormula(h string, locs []Term, before, after, allocTopBef
 	}
 	return Term{fmt.Sprintf("(forall ((r Int)) (! (=> (and %s) (= (select %s r) (select %s r))) :pattern ((select %s r))))",
 		strings.Join(conds, " "), after.S, before.S, after.S), SBool}
+}
+
+// partialFrameObligations: the heaps named by a "frames" clause change only at the listed locations.
+func (f *fnTrans) partialFrameObligations(ins *ssa.Return, ord int) {
+	env := f.env(f.fn.Blocks[0], f.entry, nil)
+	env.old = f.entry
+	fs := f.frameOfMods(f.c.Frames, f.fn.Signature, env)
+	top0 := Sym("G$allocTop@0", SInt)
+	if t, ok := f.entry.h["G$allocTop"]; ok {
+		top0 = t
+	}
+	if !f.w.modsets[f.fn]["G$allocTop"] {
+		top0 = Term{}
+	}
+	props := f.c.FramesProps
+	if len(props) == 0 {
+		props = f.allProps
+	}
+	var hs []string
+	for h := range fs.locs {
+		hs = append(hs, h)
+	}
+	sort.Strings(hs)
+	for _, h := range hs {
+		before := Sym(h+"@0", f.w.heapSort[h])
+		if t, ok := f.entry.h[h]; ok {
+			before = t
+		}
+		after := f.heap(h)
+		if after.S == before.S {
+			continue
+		}
+		goal := f.frameFormula(h, fs.locs[h], before, after, top0)
+		o := f.oblige("frame", fmt.Sprintf("frame: %s changes only at the locations listed in frames", h), ins.Pos(), props, f.here(), goal)
+		o.Name = fmt.Sprintf("%s/frame:%s@ret%d", f.name, h, ord)
+	}
 }
 
 func (f *fnTrans) frameObligations(ins *ssa.Return, ord int) {
